@@ -10,17 +10,20 @@
   Property text → theorems
     "after every honest create/extend exchange both ends hold identical session keys and the hop list names exactly
      the peers it selected, in order"      → responder_answer, relay_pairing_transparent, honest_exchange_agrees,
-                                              honest_agreement (any number of hops)
+                                              honest_agreement (any number of hops), honest_last_exchange_ready,
+                                              honest_extend_end_to_end (three node states, messages chained)
     "wrong identifier / other circuit / replayed from an earlier attempt / altered key material never gives anyone
      other than the holder of the selected peer's private key session keys that the originator accepts"
                                             → accept_requires, accepted_keys_need_selected_key, wrong_identifier_rejected,
                                               no_outstanding_request_rejected, bad_auth_rejected, replay_rejected,
                                               duplicate_rejected, late_answer_rejected, resend_rejects_previous_answer,
+                                              first_hop_duplicate_late_resend_rejected,
                                               every_hop_keyed_with_selected,
                                               no_outsider_holds_hop_keys (all histories)
     "never changes an already established hop" → step_hops_append_only, hops_append_only, answer_touches_one_circuit
                                               (originator side); joined_ids_disjoint, joined_keys_stable,
-                                              relay_route_stable, joined_state_stable (responder / relay side)
+                                              relay_route_stable, joined_state_stable,
+                                              pairing_under_used_id_refused (responder / relay side)
 -/
 import Ipv8.C08.Lemmas
 
@@ -152,7 +155,9 @@ theorem answer_touches_one_circuit (C : Crypto Tag Sess Blob) (n : Node Sess) (c
   constructor
   · simp only [step, onCreated]
     split
-    · split <;> rfl
+    · split
+      · rfl
+      · split <;> rfl
     · exact originAnswer_other C n cid ident key auth cands env cid' hc
   · exact originAnswer_other C n cid ident key auth cands env cid' hc
 
@@ -197,6 +202,9 @@ theorem bad_auth_rejected (C : Crypto Tag Sess Blob) (n : Node Sess) (cid ident 
     (Or.inr ⟨c, h0, Or.inr (Or.inr (Or.inr ⟨b, x, w, hu, rfl, hbad⟩))⟩)
   exact ⟨by simp only [step, onCreated, hrel]; exact h, by simp only [step, onExtended]; exact h⟩
 
+/-- non-vacuity: outstanding attempt (2, 10); the genuine MAC but over a RE-ENCODED key (same point, enc 1) is rejected -/
+example : ((step Free exNode (.created 77 555 (some ⟨20, 1⟩) (.mac [dh 10 20] ⟨20, 0⟩) (.junk 0) ⟨11, 556, none⟩)).1.circuits
+    77).map (fun c => (c.hops.length, c.unverified)) = some (0, some (2, 10)) := by decide
 example : (FTag.mac [dh 10 20] ⟨20, 0⟩ : FTag) ≠ Free.mac [dh 10 (⟨20, 1⟩ : Wire).pt] ⟨20, 1⟩ := by decide
 
 /-- replay from an earlier attempt / from another circuit: an auth made for another ephemeral `x' ≠ x` is rejected
@@ -304,6 +312,47 @@ example : ((run Free exNode [.sendInitialCreate 77 [3] 2 ⟨14, 558, none⟩,
       .created 77 558 (some ⟨20, 0⟩) (.mac [dh 10 20] ⟨20, 0⟩) (.junk 0) ⟨15, 559, none⟩]).circuits 77).map
     (fun c => (c.hops.length, c.unverified)) = some (0, some (3, 14)) := by decide
 
+/-- first-hop versions (the answer is a CREATED; the node's relay-side cache must not claim the identifier) -/
+theorem first_hop_duplicate_late_resend_rejected (C : Crypto Tag Sess Blob) (L : Laws C) (n : Node Sess)
+    (cid ident : Nat) (key : Option Wire) (auth : Tag) (w : Wire) (cands : Blob) (env env' : Env) (c : Circ Sess)
+    (x : Key) (targets : List Key) (tries : Int)
+    (h0 : n.circuits cid = some c) (hrel : n.creates ident = none)
+    (hdup : ∀ b x', c.unverified = some (b, x') → env.x ≠ x') (hfresh : env.x ≠ x) :
+    (let n' := (step C n (.created cid ident key auth cands env)).1
+     step C n' (.created cid ident key auth cands env') = (n', [])) ∧
+    (let n' := (step C n (.retryTimeout cid env)).1
+     step C n' (.created cid ident (some w) (C.mac [dh x w.pt] w) cands env') = (n', [])) ∧
+    (let n' := (step C n (.sendInitialCreate cid targets tries env)).1
+     step C n' (.created cid ident (some w) (C.mac [dh x w.pt] w) cands env') = (n', [])) ∧
+    (let n' := (step C n (.sendExtend cid targets tries env)).1
+     step C n' (.created cid ident (some w) (C.mac [dh x w.pt] w) cands env') = (n', [])) := by
+  obtain ⟨hc1, hc2, hc3⟩ := resend_creates C n cid env targets tries
+  refine ⟨?_, ?_, ?_, ?_⟩
+  · intro n'
+    have hn : n' = (step C n (.extended cid ident key auth cands env)).1 := by
+      simp only [n', created_eq_extended C n cid ident key auth cands env hrel]
+    have hcr : n'.creates ident = none := by
+      rw [hn]; simp only [step, onExtended, originAnswer_creates]; exact hrel
+    rw [created_eq_extended C n' cid ident key auth cands env' hcr, hn]
+    exact duplicate_rejected C L n cid ident key auth cands env env'
+      (fun c' b x' hc hu => by rw [h0] at hc; cases hc; exact hdup b x' hu)
+  · intro n'
+    have hcr : n'.creates ident = none := by simp only [n', hc1]; exact hrel
+    rw [created_eq_extended C n' cid ident _ _ cands env' hcr]
+    exact late_answer_rejected C L n cid ident w cands env env' c x h0 hfresh
+  · intro n'
+    have hcr : n'.creates ident = none := by simp only [n', hc3]; exact hrel
+    rw [created_eq_extended C n' cid ident _ _ cands env' hcr]
+    exact (resend_rejects_previous_answer C L n cid ident w cands env env' c x targets tries h0 hfresh).2
+  · intro n'
+    have hcr : n'.creates ident = none := by simp only [n', hc2]; exact hrel
+    rw [created_eq_extended C n' cid ident _ _ cands env' hcr]
+    exact (resend_rejects_previous_answer C L n cid ident w cands env env' c x targets tries h0 hfresh).1
+
+/-- non-vacuity: first-hop answer delivered twice; hop 2 appended once -/
+example : ((run Free exNode [exAnswer, exAnswer]).circuits 77).map (fun c => c.hops.map Hop.peer) = some [2] ∧
+    exNode.creates 555 = none := by decide
+
 /-! ## 4. every history: hops are keyed with the selected peer's static key -/
 
 /-- invariant over ALL traces (any interleaving of answers, forged or genuine, timeouts, retries, relay duties):
@@ -353,6 +402,12 @@ theorem responder_answer (C : Crypto Tag Sess Blob) (q : Node Sess) (cid ident n
        [⟨nodePk, .created cid ident (some a.1) a.2.1 a.2.2.1⟩]) := by
   simp [onCreate, hj, hfree, hunused.1, hunused.2.1, hunused.2.2, genuineAnswer, genSharedSecret_eq]
 
+/-- non-vacuity: a fresh node 4 satisfies the hypotheses and answers a CREATE for id 88 -/
+example :
+    let q : Node Secret := Node.init 4 true true
+    q.canJoin = true ∧ q.created 88 = none ∧ q.exits 88 = none ∧
+      (onCreate Free q 88 999 2 (some (pubOf 11)) 21 [5, 5]).2.length = 1 := by decide
+
 /-- relay: on_extend forwards the originator's key bytes unchanged in a CREATE carrying the cache number, and the
     CREATED that carries that number comes back as an EXTENDED for the original circuit with the ORIGINAL identifier
     and the key, auth and candidate bytes unchanged; the relay keeps its own session keys -/
@@ -360,7 +415,8 @@ theorem relay_pairing_transparent (C : Crypto Tag Sess Blob) (r : Node Sess) (ci
     (X key : Option Wire) (auth : Tag) (cands : Blob) (ag : Bool) (toCid number anyCid : Nat) (env : Env)
     (offeredBefore : List Key) (prev : Hop Sess)
     (hr : r.canRelay = true) (hc : r.created cid = some offeredBefore) (hb : ag = true ∨ b ∈ offeredBefore)
-    (hnc : r.circuits cid = none) (hex : r.exits cid = some prev) :
+    (hnc : r.circuits cid = none) (hex : r.exits cid = some prev)
+    (hfree : r.circuits toCid = none ∧ r.relays toCid = none ∧ r.exits toCid = none) :
     let s1 : Node Sess × List (Out Tag Blob) := onExtend r cid ident b X ag toCid number
     let s2 := onCreated C s1.1 anyCid number key auth cands env
     s1.2 = [⟨b, .create toCid number r.me X⟩] ∧
@@ -383,9 +439,8 @@ theorem relay_pairing_transparent (C : Crypto Tag Sess Blob) (r : Node Sess) (ci
   have e1 : s1 = ({ r with creates := upd r.creates number (some ⟨ident, toCid, cid, prev.peer, b⟩) },
        [⟨b, .create toCid number r.me X⟩]) := hs1
   refine ⟨by rw [e1], ?_, ?_⟩
-  · simp only [s2, e1, onCreated, upd_same, hex]
-  · simp only [s2, e1, onCreated, upd_same, hex]
-    exact ⟨_, rfl, rfl, rfl, rfl⟩
+  · simp [s2, e1, onCreated, upd_same, hex, hfree.1, hfree.2.1, hfree.2.2]
+  · simp [s2, e1, onCreated, upd_same, hex, hfree.1, hfree.2.1, hfree.2.2]
 
 /-- non-vacuity: a relay (node 2) that joined circuit 77 pairs the extend to peer 4 with the CREATED numbered 999 -/
 example :
@@ -423,6 +478,10 @@ theorem honest_exchange_agrees (C : Crypto Tag Sess Blob) (n : Node Sess) (cid :
     · simp only [pubOf] at h; rw [hc'] at h; cases h
     · simp only [pubOf] at h; rw [hc'] at h; cases h
       rw [hh]; simp [pubOf, dh_comm]
+
+/-- non-vacuity: the outstanding attempt of `exNode` is (peer 2, ephemeral 10, id 555) -/
+example : (deliverGenuine Free exNode 77 20 [3, 4, 4] ⟨11, 556, none⟩).2.map (fun h => (h.peer, h.keys))
+    = some (2, [dh 10 20, dh 2 10]) := by decide
 
 /-- any number of hops: after an undisturbed build the hop list is the initial one followed by exactly the selected
     peers, in order, each with the keys that peer holds -/
@@ -466,18 +525,112 @@ example : (honestRun Free 77 exNode [(20, [3, 4, 4], ⟨11, 556, none⟩), (21, 
 example : ((honestRun Free 77 exNode [(20, [3, 4, 4], ⟨11, 556, none⟩), (21, [], ⟨12, 557, none⟩)]).1.circuits 77).map
     (fun c => (c.hops.map Hop.peer, c.unverified, c.retry)) = some ([2, 4], none, none) := by decide
 
+/-- the last honest exchange completes the build: with `goal = hops + 1` the circuit is READY afterwards
+    (goal many hops, no unverified hop, retry cache popped) -/
+theorem honest_last_exchange_ready (C : Crypto Tag Sess Blob) (n : Node Sess) (cid : Nat)
+    (c : Circ Sess) (b x : Key) (r : Retry) (y : Key) (offered : List Key) (env : Env)
+    (h0 : n.circuits cid = some c) (hu : c.unverified = some (b, x)) (hr : c.retry = some r)
+    (hgoal : c.goal = c.hops.length + 1) :
+    ∃ c', (deliverGenuine C n cid y offered env).1.circuits cid = some c' ∧
+      c'.hops.length = c'.goal ∧ c'.unverified = none ∧ c'.retry = none ∧
+      c'.hops = c.hops ++ [⟨b, (genuineAnswer C b y (pubOf x) offered).2.2.2⟩] := by
+  rw [deliverGenuine_eq C n cid c b x r y offered env h0 hu hr]
+  have heq : originAnswer C n cid r.ident (some (pubOf y)) (C.mac [dh y x] (pubOf y))
+      (C.enc (C.kdf [dh y x, dh b x]) offered) env =
+      n.setCirc cid (ours C n.me cid c (some (pubOf y)) (C.mac [dh y x] (pubOf y))
+        (C.enc (C.kdf [dh y x, dh b x]) offered) env) := by
+    unfold originAnswer
+    simp [h0, hr]
+  rw [heq]
+  simp only [setCirc_circ, if_true]
+  have hmac : C.mac [dh y x] (pubOf y) = C.mac [dh x (pubOf y).pt] (pubOf y) := by simp [pubOf, dh_comm]
+  unfold ours
+  simp only [hu, genVerify_eq, hmac, if_true]
+  have hlen : ¬ (c.hops ++ [(⟨b, C.kdf [dh x (pubOf y).pt, dh x (pubOf b).pt]⟩ : Hop Sess)]).length < c.goal := by
+    simp [hgoal]
+  simp only [hlen, if_false]
+  refine ⟨_, rfl, ?_, rfl, rfl, ?_⟩
+  · simp [hgoal]
+  · simp [genuineAnswer_eq, pubOf, dh_comm]
+
+/-- non-vacuity: 1-hop circuit 78 to peer 5 becomes READY on the genuine answer -/
+example :
+    let n := (step Free (Node.init 1 false false) (.createCircuit 78 1 (some 5) [5] ⟨10, 555, none⟩)).1
+    ((deliverGenuine Free n 78 20 [] ⟨11, 556, none⟩).1.circuits 78).map
+      (fun c => (c.hops.map Hop.peer, c.goal, c.unverified, c.retry)) = some ([5], 1, none, none) := by decide
+
+/-- one honest extension across THREE node states — originator `n`, the relay `r` at the end of the circuit, the
+    selected peer `q` (`q.me = b`) — with every message taken from the previous node's output:
+    EXTEND → r.on_extend → CREATE → q.on_create → CREATED → r.on_created → EXTENDED → n.on_extended.
+    The selected peer stores for the new circuit id exactly the keys the originator appends for hop `b`, the relay
+    routes the circuit to `b` under that id, and the originator's hop list grows by exactly ⟨b, those keys⟩. -/
+theorem honest_extend_end_to_end (C : Crypto Tag Sess Blob)
+    (n r q : Node Sess) (ocid linkCid toCid number : Nat) (c : Circ Sess) (b x y : Key) (rt : Retry)
+    (ag : Bool) (offeredBefore offered : List Key) (prev : Hop Sess) (env0 env : Env)
+    -- originator: attempt (b, x) outstanding with identifier rt.ident
+    (h0 : n.circuits ocid = some c) (hu : c.unverified = some (b, x)) (hrt : c.retry = some rt)
+    -- relay: joined linkCid, offered b (or got an address), outgoing id free
+    (hr : r.canRelay = true) (hc : r.created linkCid = some offeredBefore) (hb : ag = true ∨ b ∈ offeredBefore)
+    (hnc : r.circuits linkCid = none) (hex : r.exits linkCid = some prev)
+    (hfree : r.circuits toCid = none ∧ r.relays toCid = none ∧ r.exits toCid = none)
+    -- selected peer: it IS b, willing to join, id unused
+    (hq : q.me = b) (hj : q.canJoin = true) (hqc : q.created toCid = none)
+    (hqu : q.circuits toCid = none ∧ q.relays toCid = none ∧ q.exits toCid = none) :
+    let a := genuineAnswer C b y (pubOf x) offered
+    let s1 : Node Sess × List (Out Tag Blob) := onExtend r linkCid rt.ident b (some (pubOf x)) ag toCid number
+    let s2 := onCreate C q toCid number r.me (some (pubOf x)) y offered
+    let s3 := onCreated C s1.1 toCid number (some a.1) a.2.1 a.2.2.1 env0
+    let s4 := onExtended C n ocid rt.ident (some a.1) a.2.1 a.2.2.1 env
+    s1.2 = [⟨b, .create toCid number r.me (some (pubOf x))⟩] ∧
+    s2.2 = [⟨r.me, .created toCid number (some a.1) a.2.1 a.2.2.1⟩] ∧
+    s3.2 = [⟨prev.peer, .extended linkCid rt.ident (some a.1) a.2.1 a.2.2.1⟩] ∧
+    (s2.1.exits toCid).map Hop.keys = some a.2.2.2 ∧
+    (∃ rl, s3.1.relays linkCid = some rl ∧ rl.target = toCid ∧ rl.peer = b ∧ rl.keys = prev.keys) ∧
+    (∀ c', s4.1.circuits ocid = some c' → c'.hops = c.hops ++ [⟨b, a.2.2.2⟩]) := by
+  intro a s1 s2 s3 s4
+  obtain ⟨p1, p2, rl, p3, p4, p5, p6⟩ := relay_pairing_transparent C r linkCid rt.ident b (some (pubOf x)) (some a.1)
+    a.2.1 a.2.2.1 ag toCid number toCid env0 offeredBefore prev hr hc hb hnc hex hfree
+  have hresp := responder_answer C q toCid number r.me y (pubOf x) offered hj hqc hqu
+  simp only [hq] at hresp
+  obtain ⟨_, hag⟩ := honest_exchange_agrees C n ocid c b x rt y offered env h0 hu hrt
+  have hs4 : s4.1 = (deliverGenuine C n ocid y offered env).1 := by
+    rw [deliverGenuine_eq C n ocid c b x rt y offered env h0 hu hrt]
+    simp only [s4, a, onExtended, genuineAnswer_eq, pubOf]
+  refine ⟨p1, ?_, p2, ?_, ⟨rl, p3, p5, p6, p4⟩, ?_⟩
+  · simp only [s2, hresp, a]
+  · simp only [s2, hresp, a, upd_same, Option.map]
+  · intro c' hc'
+    rw [hs4] at hc'
+    exact hag c' hc'
+
+/-- non-vacuity: originator 1 (circuit 77, first hop 2 established, extending to 4 with ephemeral 11, id 556),
+    relay 2 (joined 77), selected peer 4: the hypotheses hold and peer 4 ends up with the originator's keys -/
+example :
+    let n := (step Free exNode exAnswer).1
+    let r := (step Free (Node.init 2 true true) (.create 77 555 1 (some ⟨10, 0⟩) 20 [3, 4, 4])).1
+    let q : Node Secret := Node.init 4 true true
+    ((n.circuits 77).map (fun c => (c.unverified, c.retry.map (·.ident))) = some (some (4, 11), some 556)) ∧
+    r.created 77 = some [3, 4, 4] ∧ (r.exits 77).isSome ∧ r.circuits 77 = none ∧
+    ((onCreate Free q 88 999 2 (some (pubOf 11)) 21 []).1.exits 88).map Hop.keys = some [dh 11 21, dh 4 11] ∧
+    ((onExtended Free n 77 556 (some (pubOf 21)) (.mac [dh 21 11] (pubOf 21)) (.enc [dh 11 21, dh 4 11] [])
+        ⟨12, 557, none⟩).1.circuits 77).map (fun c => c.hops.map (fun h => (h.peer, h.keys))) =
+      some [(2, [dh 10 20, dh 2 10]), (4, [dh 11 21, dh 4 11])] := by decide
+
 /-! ## 6. the joined side: keys and routes of established hops never change
 
-`FreshTo` is the only side condition: the relay's `_generate_circuit_id` result does not collide with one of its own
-exit sockets / relay routes (the code only avoids collisions with `circuits`; a 2⁻³² event, recorded as an assumption). -/
+No side condition is left: since fix f3c2d31 the relay branch of on_created refuses to pair when the outgoing circuit
+id it reserved is meanwhile in use at the node (that id travels in a plaintext CREATE, so the next hop or the network
+could — and on the unrepaired tree did — make it collide on purpose; see `pairing_under_used_id_refused`).
+The events are the eleven of `Ev`; explicit removals (destroy from the neighbour, inactivity sweep, unload) are not
+events of this model (properties C05/C09/C11): after such a removal the id is free again by design. -/
 
 /-- a circuit id is never an exit socket and a relay route at the same time (on_create refuses ids in use; the relay
-    branch of on_created removes the exit socket it converts) -/
+    branch of on_created removes the exit socket it converts and refuses outgoing ids in use) -/
 theorem joined_ids_disjoint (C : Crypto Tag Sess Blob) (n : Node Sess) (e : Ev Tag Blob)
-    (hd : Disjoint n) (hf : FreshTo n e) : Disjoint (step C n e).1 := by
+    (hd : Disjoint n) : Disjoint (step C n e).1 := by
   intro cid
   rcases step_joined C n e with ⟨h1, h2⟩ | ⟨c1, h, he, hr, _, h1, h2⟩ |
-    ⟨cid', ident, key, auth, cands, env, req, ex, rfl, hcr, hex, h1, h2⟩
+    ⟨cid', ident, key, auth, cands, env, req, ex, rfl, hcr, hex, _, hfr, hfe, h1, h2⟩
   · rw [h1, h2]; exact hd cid
   · rw [h1, h2]
     by_cases hc : cid = c1
@@ -488,19 +641,20 @@ theorem joined_ids_disjoint (C : Crypto Tag Sess Blob) (n : Node Sess) (e : Ev T
     · left; rw [hc, upd_same]
     · rw [upd_other _ _ hc, upd_other _ _ hc]
       by_cases ht : cid = req.toCid
-      · left
-        have hne : req.toCid ≠ req.fromCid := fun h => hc (ht.trans h)
-        rw [ht]; exact (hf req hcr hne).1
+      · left; rw [ht]; exact hfe
       · rw [upd_other _ _ ht]; exact hd cid
 
+/-- non-vacuity: every fresh node satisfies `Disjoint` -/
+example : Disjoint (Node.init 2 true true : Node Secret) := fun _ => Or.inl rfl
+
 /-- responder / relay side of an established hop: whatever event follows (replayed CREATE after the created-cache
-    expired, replayed EXTEND, late or forged CREATED, timeouts …) the session keys held for circuit id `cid` stay the same -/
+    expired, replayed EXTEND, late or forged CREATED, a CREATE squatting on a reserved outgoing id, timeouts …) the
+    session keys held for circuit id `cid` stay the same -/
 theorem joined_keys_stable (C : Crypto Tag Sess Blob) (n : Node Sess) (e : Ev Tag Blob) (cid : Nat) (k : Sess)
-    (hf : FreshTo n e) (hk : entryKeys n cid = some k) :
-    entryKeys (step C n e).1 cid = some k := by
+    (hk : entryKeys n cid = some k) : entryKeys (step C n e).1 cid = some k := by
   unfold entryKeys at hk ⊢
   rcases step_joined C n e with ⟨h1, h2⟩ | ⟨c1, h, he, hr, _, h1, h2⟩ |
-    ⟨cid', ident, key, auth, cands, env, req, ex, rfl, hcr, hex, h1, h2⟩
+    ⟨cid', ident, key, auth, cands, env, req, ex, rfl, hcr, hex, _, hfr, hfe, h1, h2⟩
   · rw [h1, h2]; exact hk
   · rw [h1, h2]
     by_cases hc : cid = c1
@@ -514,19 +668,16 @@ theorem joined_keys_stable (C : Crypto Tag Sess Blob) (n : Node Sess) (e : Ev Ta
       simpa using hk
     · rw [upd_other _ _ hc, upd_other _ _ hc]
       by_cases ht : cid = req.toCid
-      · exfalso
-        have hne : req.toCid ≠ req.fromCid := fun h => hc (ht.trans h)
-        obtain ⟨f1, f2⟩ := hf req hcr hne
-        rw [ht, f1, f2] at hk; cases hk
+      · exfalso; rw [ht, hfe, hfr] at hk; cases hk
       · rw [upd_other _ _ ht]; exact hk
 
-/-- a relay route (target circuit id, next peer, keys, direction) of an established hop is never re-pointed — in particular
-    not by the late CREATED of an earlier extend attempt -/
+/-- a relay route (target circuit id, next peer, keys, direction) of an established hop is never re-pointed — not by
+    the late CREATED of an earlier extend attempt, not by a second pairing under the same outgoing id -/
 theorem relay_route_stable (C : Crypto Tag Sess Blob) (n : Node Sess) (e : Ev Tag Blob) (cid : Nat)
-    (rl : Relay Sess) (hd : Disjoint n) (hf : FreshTo n e) (hr : n.relays cid = some rl) :
+    (rl : Relay Sess) (hd : Disjoint n) (hr : n.relays cid = some rl) :
     (step C n e).1.relays cid = some rl := by
   rcases step_joined C n e with ⟨_, h2⟩ | ⟨c1, h, _, _, _, _, h2⟩ |
-    ⟨cid', ident, key, auth, cands, env, req, ex, rfl, hcr, hex, _, h2⟩
+    ⟨cid', ident, key, auth, cands, env, req, ex, rfl, hcr, hex, _, hfr, _, _, h2⟩
   · rw [h2]; exact hr
   · rw [h2]; exact hr
   · rw [h2]
@@ -538,24 +689,48 @@ theorem relay_route_stable (C : Crypto Tag Sess Blob) (n : Node Sess) (e : Ev Ta
     rw [upd_other _ _ hc]
     have ht : cid ≠ req.toCid := by
       intro ht
-      have hne : req.toCid ≠ req.fromCid := fun h => hc (ht.trans h)
-      have := (hf req hcr hne).2
-      rw [← ht, hr] at this; cases this
+      rw [← ht, hr] at hfr; cases hfr
     rw [upd_other _ _ ht]; exact hr
 
-/-- all histories -/
+/-- all histories, from any state in which no id is exit socket and relay route at once (in particular `Node.init`) -/
 theorem joined_state_stable (C : Crypto Tag Sess Blob) (evs : List (Ev Tag Blob)) (n : Node Sess)
-    (hd : Disjoint n) (hf : RunFresh C n evs) :
+    (hd : Disjoint n) :
     Disjoint (run C n evs) ∧
     (∀ cid k, entryKeys n cid = some k → entryKeys (run C n evs) cid = some k) ∧
     (∀ cid rl, n.relays cid = some rl → (run C n evs).relays cid = some rl) := by
   induction evs generalizing n with
   | nil => exact ⟨hd, fun _ _ h => h, fun _ _ h => h⟩
   | cons e es ih =>
-    obtain ⟨hf1, hf2⟩ := hf
-    obtain ⟨i1, i2, i3⟩ := ih (step C n e).1 (joined_ids_disjoint C n e hd hf1) hf2
-    exact ⟨i1, fun cid k h => i2 cid k (joined_keys_stable C n e cid k hf1 h),
-      fun cid rl h => i3 cid rl (relay_route_stable C n e cid rl hd hf1 h)⟩
+    obtain ⟨i1, i2, i3⟩ := ih (step C n e).1 (joined_ids_disjoint C n e hd)
+    exact ⟨i1, fun cid k h => i2 cid k (joined_keys_stable C n e cid k h),
+      fun cid rl h => i3 cid rl (relay_route_stable C n e cid rl hd h)⟩
+
+/-- the repaired guard: a CREATED that would be paired under an outgoing circuit id which is meanwhile in use at the
+    relay (circuit, relay route or exit socket) only consumes the pending request -/
+theorem pairing_under_used_id_refused (C : Crypto Tag Sess Blob) (n : Node Sess) (cid ident : Nat)
+    (key : Option Wire) (auth : Tag) (cands : Blob) (env : Env) (req : CreateReq)
+    (hreq : n.creates ident = some req)
+    (hused : (n.circuits req.toCid).isSome ∨ (n.relays req.toCid).isSome ∨ (n.exits req.toCid).isSome) :
+    let r := step C n (.created cid ident key auth cands env)
+    r.2 = [] ∧ r.1.exits = n.exits ∧ r.1.relays = n.relays ∧ r.1.circuits = n.circuits ∧
+      r.1.creates = upd n.creates ident none := by
+  have hb : ((n.circuits req.toCid).isSome || (n.relays req.toCid).isSome || (n.exits req.toCid).isSome) = true := by
+    rcases hused with h | h | h <;> simp [h]
+  cases hex : n.exits req.fromCid with
+  | none => simp [step, onCreated, hreq, hex]
+  | some ex => simp [step, onCreated, hreq, hex, hb]
+
+/-- non-vacuity (the attack found by review, on the model of the repaired code): relay 2 reserved id 88 for the
+    victim's extension; the next hop squats on 88 with a circuit of its own and extends it (id 90); the victim's
+    CREATED is then NOT paired, and the attacker's pairing leaves every entry of circuit 77 as it was -/
+example :
+    let r := (run Free (Node.init 2 true true) [.create 77 555 1 (some ⟨10, 0⟩) 20 [3, 4, 4],
+      .extend 77 556 4 (some ⟨11, 0⟩) false 88 999,
+      .create 88 7 4 (some ⟨30, 0⟩) 21 [], .extend 88 8 6 (some ⟨31, 0⟩) true 90 1000,
+      .created 88 999 (some ⟨22, 0⟩) (.junk 1) (.junk 2) ⟨0, 0, none⟩,
+      .created 90 1000 (some ⟨23, 0⟩) (.junk 3) (.junk 4) ⟨0, 0, none⟩])
+    (entryKeys r 77, (r.relays 88).map (fun rl => (rl.target, rl.peer, rl.forward))) =
+      (some [dh 10 20, dh 2 10], some (90, 6, true)) := by decide
 
 /-- non-vacuity: exit node 2 joined circuit 77; a replayed CREATE (other ephemeral 40, after the created cache expired)
     leaves the stored keys as they were -/
